@@ -1,9 +1,11 @@
 package govc
 
 import (
+	"context"
 	"encoding/json"
 	"fmt"
 	"os"
+	"os/exec"
 	"path/filepath"
 	"sort"
 	"strings"
@@ -257,6 +259,23 @@ func RunCheck(cfg CheckConfig) int {
 		}
 	}
 	_ = vanished
+	// bounded stand-ins (labelled bounded, never counted as proved): the real functions executed over a stated bound
+	boundedNotes := []string{}
+	for _, b := range loadBounded(cfg.VerifDir, cfg.Property) {
+		out, ok, ran := runBounded(cfg.Repo, filepath.Join(cfg.VerifDir, "bounded", b.File), b.Run)
+		switch {
+		case !ran:
+			boundedNotes = append(boundedNotes, b.Name+": "+b.Bound+" -- could not be run: "+firstLine(out))
+			rp := writeReplay(cfg, "bounded:"+b.Name, "bounded stand-in could not be run:\n"+out, "", nil)
+			fail("bounded:"+b.Name, " no-failing-input-found", rp)
+		case ok:
+			boundedNotes = append(boundedNotes, b.Name+": "+b.Bound+" -- passed")
+		default:
+			boundedNotes = append(boundedNotes, b.Name+": "+b.Bound+" -- FAILED")
+			rp := writeReplay(cfg, "bounded:"+b.Name, "bounded stand-in failed on the real code (the failing input is in the output below; re-run: cd /repo && go test -overlay <zz_govc_bounded_test.go -> "+filepath.Join(cfg.VerifDir, "bounded", b.File)+"> -vet=off -run '"+b.Run+"' .):\n"+out, "", nil)
+			fail("bounded:"+b.Name, "", rp)
+		}
+	}
 	sort.Strings(knownPrinted)
 	for _, l := range knownPrinted {
 		fmt.Println(l)
@@ -288,7 +307,7 @@ func RunCheck(cfg CheckConfig) int {
 	writeEvidence(evPath, cfg, obls, funcs, samples, violations, start, as, map[string]interface{}{
 		"obligations": total - len(knownPrinted), "discharged": discharged, "solver_time_s": float64(solverMs) / 1000.0,
 		"obligations_generated": total, "known_finding_obligations": len(knownPrinted),
-		"known_findings": knownPrinted, "vanished_ids": vanished,
+		"known_findings": knownPrinted, "vanished_ids": vanished, "bounded": boundedNotes,
 	})
 	fmt.Printf("property %s: %d obligations, %d discharged, %d known findings, %d violations, %.1fs\n", cfg.Property, total, discharged, len(knownPrinted), violations, time.Since(start).Seconds())
 	if violations > 0 {
@@ -357,4 +376,57 @@ func writeReplay(cfg CheckConfig, obl, why, query string, r *OblResult) string {
 	}
 	os.WriteFile(path, []byte(b.String()), 0o644)
 	return path
+}
+
+type boundedCheck struct {
+	Property string `json:"property"`
+	Name     string `json:"name"`
+	File     string `json:"file"`
+	Run      string `json:"run"`
+	Bound    string `json:"bound"`
+}
+
+func loadBounded(verifDir, prop string) []boundedCheck {
+	var all, out []boundedCheck
+	data, err := os.ReadFile(filepath.Join(verifDir, "bounded", "bounded.json"))
+	if err != nil {
+		return nil
+	}
+	json.Unmarshal(data, &all)
+	for _, b := range all {
+		if b.Property == prop {
+			out = append(out, b)
+		}
+	}
+	return out
+}
+
+func firstLine(s string) string {
+	if k := strings.Index(s, "\n"); k >= 0 {
+		return s[:k]
+	}
+	return s
+}
+
+// runBounded runs one bounded harness against the real code through an overlay. Returns output, passed, ran.
+func runBounded(repo, gofile, run string) (string, bool, bool) {
+	ovDir, _ := os.MkdirTemp(TmpDir(), "ovb")
+	ov := map[string]map[string]string{"Replace": {filepath.Join(repo, "zz_govc_bounded_test.go"): gofile}}
+	data, _ := json.Marshal(ov)
+	ovFile := filepath.Join(ovDir, "overlay.json")
+	os.WriteFile(ovFile, data, 0o644)
+	ctx, cancel := context.WithTimeout(context.Background(), 300*time.Second)
+	defer cancel()
+	cmd := exec.CommandContext(ctx, "go", "test", "-overlay", ovFile, "-vet=off", "-count=1", "-timeout", "240s", "-run", run, ".")
+	cmd.Dir = repo
+	cmd.Env = append(os.Environ(), "GOFLAGS=-mod=mod", "GOPROXY=off", "GOSUMDB=off", "GOTOOLCHAIN=local")
+	out, err := cmd.CombinedOutput()
+	s := string(out)
+	if err == nil && strings.Contains(s, "ok") {
+		return s, true, true
+	}
+	if strings.Contains(s, "--- FAIL") || strings.Contains(s, "panic:") {
+		return s, false, true
+	}
+	return s, false, false
 }
